@@ -100,12 +100,54 @@ def gss_sessions(rng, tables):
     return makers
 
 
+def probe_then_sign_sessions(rng, tables):
+    """a key probe answered PK_OK followed by a signed request - same and different (user, algorithm, key) - with the
+    application's answer varying per CALL (success / partial for the probe; success / partial / failure afterwards)"""
+    makers = []
+    keys = L.client_keys()
+    for key, algos in keys:
+        algo = algos[0]
+        for res_p in (0, 1):
+            for res_s in (0, 1, 2):
+                for variant in ("same", "other-key", "other-algo", "bad-signature", "probe-twice"):
+                    if variant == "other-algo" and len(algos) < 2:
+                        continue
+                    if variant in ("other-key", "other-algo", "probe-twice") and (res_p, res_s) not in ((0, 2), (1, 1), (0, 0)):
+                        continue
+
+                    def mk(sid, key=key, algo=algo, algos=algos, res_p=res_p, res_s=res_s, variant=variant):
+                        gen = L.Gen(rng, "c14", tables)
+                        user = gen.user
+                        steps = [L.pk_step(gen, sid, user, key, algo, False, res_p)]
+                        if variant == "same":
+                            steps.append(L.pk_step(gen, sid, user, key, algo, True, res_s))
+                        elif variant == "other-key":
+                            other = [k for k in keys if k[0] is not key][0]
+                            steps.append(L.pk_step(gen, sid, user, other[0], other[1][0], True, res_s))
+                        elif variant == "other-algo":
+                            steps.append(L.pk_step(gen, sid, user, key, algos[1], True, res_s))
+                        elif variant == "bad-signature":
+                            steps.append(L.pk_step(gen, sid, user, key, algo, True, res_s, sigkind="other-session"))
+                        else:
+                            steps.append(L.pk_step(gen, sid, user, key, algo, False, res_s))
+                            steps.append(L.pk_step(gen, sid, user, key, algo, True, res_s))
+                        steps.append(L.pk_step(gen, sid, user, key, algo, True, 0))
+                        for s_ in steps:
+                            s_["meta"]["scenario"] = "probe-then-sign:" + variant
+                        return steps
+
+                    makers.append((False, mk))
+    return makers
+
+
 def run(ctx):
     ctx.rule = ("random scripted sessions of 1-12 messages weighted towards publickey (3 key types, 5 algorithms; "
                 "signatures: valid / other session / other user / other service / other algorithm / other key / wrong "
                 "signer / bit-flipped; probes; rejected keys), password, keyboard-interactive incl. unsolicited info "
                 "responses, gssapi-with-mic and gssapi-keyex over a stub GSS context, callbacks returning "
-                "success/partial/failure/odd codes; plus both GSS methods walked to the end for every callback result. "
+                "success/partial/failure/odd codes; plus both GSS methods walked to the end for every callback result, and key "
+                "probes followed by signed requests for the same / another key / another algorithm / a bad signature with "
+                "the application's answer varying per call (probe: success|partial, then success|partial|failure). "
                 "distinct = distinct (message, outcome) sequences; non-trivial = the session contains a USERAUTH_SUCCESS")
     ctx.trust("the raw-client harness (pv/lib_authsrv.py)",
               "signature schemes (cryptography / nacl): a signature verifies only for the data and key it was made "
@@ -116,6 +158,7 @@ def run(ctx):
     tables = L.gen_tables(ctx)
     ctx.build(extra_modules=["PV.Model.AuthServerDriver"])
     makers = gss_sessions(ctx.rng, tables)
+    makers += probe_then_sign_sessions(ctx.rng, tables)
     makers += L.profile_makers(ctx, "c14", 600 if ctx.thorough else 150, tables)
     traces = L.run_sessions(ctx, "C14", makers)
     L.compare_traces(ctx, traces, "C14")
@@ -125,6 +168,8 @@ def run(ctx):
         nt = oracle(ctx, tr)
         key = tuple((s["ptype"], s["payload"], r["cbs"], r["sent"]) for s, r in zip(tr["steps"], tr["real"]))
         ctx.case(key, nt)
+        if tr["steps"][0]["meta"].get("scenario"):
+            ctx.dist(tr["steps"][0]["meta"]["scenario"])
         for s in tr["steps"]:
             if s["meta"].get("method"):
                 ctx.dist("method:" + s["meta"]["method"].decode("latin1"))
